@@ -83,7 +83,7 @@ package client
 //@ watch PM = call mime.ParseMediaType
 //@ watch RF = dyn field:client.Runtime.response
 //@ watch RR = invoke (runtime.ClientResponseReader).ReadResponse
-//@ requires r != nil && operation != nil && operation.Reader != nil && r.response != nil && (r.Debug ==> r.logger != nil)
+//@ requires r != nil && operation != nil && operation.Reader != nil && operation.Params != nil && r.response != nil && (r.Debug ==> r.logger != nil)
 //@ stable r.Consumers[*], operation.Client, operation.Context, operation.Reader
 //@ ensures [create] calls(CR) == 1 && arg(CR,0,0) == r && arg(CR,0,1) == operation
 //@ ensures [C12:createerr] ret(CR,0,2) != nil ==> result0 == nil && result1 == ret(CR,0,2) && calls(DO) == 0 && calls(WC) == 0 && calls(WT) == 0
@@ -175,12 +175,29 @@ package client
 //@ ensures [C14:preset] ret(HG,0,0) != "" ==> result == nil && calls(DA) == 0
 //@ ensures [C14:default] ret(HG,0,0) == "" ==> calls(DA) == 1 && recv(DA,0) == r.DefaultAuthentication && arg(DA,0,0) == req && arg(DA,0,1) == reg && result == ret(DA,0,0)
 
-// createHttpRequest: assumed until buildHTTP is under contract (see DESIGN.md C10-C12):
-// it builds new request objects and writes nothing into the runtime or the operation.
+// createHttpRequest: new request object, Accept header, credential selection, media type, buildHTTP, scheme and host
 //@ func (*Runtime).createHttpRequest
-//@ trusted
-//@ ensures result2 == nil ==> result0 != nil && result1 != nil
-//@ assigns \opaque
+//@ watch NR = call newRequest
+//@ watch SH = call (*request).SetHeaderParam
+//@ watch C1 = closure (*Runtime).createHttpRequest$1
+//@ watch BH = call (*request).buildHTTP
+//@ watch PS = call (*Runtime).pickScheme
+//@ requires r != nil && operation != nil && operation.Params != nil
+//@ ensures [C10:newrequest] calls(NR) == 1 && arg(NR,0,0) == old(operation.Method) && arg(NR,0,1) == old(operation.PathPattern) && arg(NR,0,2) == old(operation.Params)
+//@ ensures [C10:build] calls(BH) <= 1 && (calls(BH) == 1 ==> arg(BH,0,0) == ret(NR,0,0) && arg(BH,0,2) == old(r.BasePath) && arg(BH,0,3) == old(r.Producers) && arg(BH,0,4) == old(r.Formats))
+//@ ensures [C14:credential] calls(BH) == 1 ==> (old(operation.AuthInfo) != nil ==> arg(BH,0,5) == old(operation.AuthInfo) && calls(C1) == 0) && (old(operation.AuthInfo) == nil && old(r.DefaultAuthentication) == nil ==> arg(BH,0,5) == nil && calls(C1) == 0) && (old(operation.AuthInfo) == nil && old(r.DefaultAuthentication) != nil ==> calls(C1) == 1 && captured(C1,0,"r") == r && arg(BH,0,5) == boxas(ret(C1,0,0), "runtime.ClientAuthInfoWriterFunc"))
+//@ ensures [C10:buildfail] calls(BH) == 1 && ret(BH,0,1) != nil ==> result0 == nil && result1 == nil && result2 == ret(BH,0,1) && calls(PS) == 0
+//@ ensures [C10:scheme] result2 == nil ==> calls(BH) == 1 && calls(PS) == 1 && arg(PS,0,0) == r && result0 == ret(NR,0,0) && result1 == ret(BH,0,0) && result1 != nil && result1.URL != nil && result1.URL.Scheme == ret(PS,0,0) && result1.URL.Host == r.Host && result1.Host == r.Host
+//@ loop 0 invariant calls(NR) == 1 && calls(SH) == 1 && calls(BH) == 0 && calls(PS) == 0 && request == ret(NR,0,0) && request != nil && request.writer == old(operation.Params)
+//@ loop 0 invariant calls(C1) == (old(operation.AuthInfo) == nil && old(r.DefaultAuthentication) != nil ? 1 : 0)
+
+//@ func newRequest
+//@ ensures result != nil && fresh(result) && result.pathPattern == pathPattern && result.method == method && result.writer == writer && result.header != nil && result.query != nil && result.header != result.query && result.formFields == nil && result.fileFields == nil && result.pathParams == nil && result.payload == nil && result.buf == nil
+
+//@ func (*request).SetHeaderParam
+//@ requires r != nil
+//@ ensures result == nil && r.header != nil && (old(r.header) != nil ==> r.header == old(r.header)) && (old(r.header) == nil ==> fresh(r.header))
+//@ assigns r.header, r.header[*]
 
 // ---------------------------------------------------------------- keepalive.go (C12): drain before close unless the end was seen
 
@@ -406,6 +423,10 @@ package client
 //@ ensures [C11:sentbody] result1 == nil ==> calls(NRQ) == 1 && arg(NRQ,0,3) == body
 //@ ensures [C11:bodykind] result1 == nil && auth == nil ==> body == (F() && M() ? boxas(ret(PIPE,0,0), "*io.PipeReader") : (F() ? boxas(ret(NBF,0,0), "*bytes.Buffer") : (!P() ? nil : (implements(after(WTR, r.payload), "io.Reader") ? after(WTR, r.payload) : boxas(ret(NBF,0,0), "*bytes.Buffer")))))
 //@ ensures [C11:getbody] calls(C2) <= 1 && (calls(C2) == 1 ==> auth != nil && r.getBody == ret(C2,0,0))
+//@ ensures [C11:override] calls(AR) == 1 ==> (calls(C2) == 1 <==> before(AR, body != nil && body != boxas(r.buf, "*bytes.Buffer")))
+//@ ensures [C11:authcall] auth != nil && ret(WTR,0,0) == nil && !(calls(PR) == 1 && ret(PR,0,0) != nil) && !noProducer() ==> calls(AR) == 1 && recv(AR,0) == auth && arg(AR,0,0) == boxas(r, "*request") && arg(AR,0,1) == registry
+//@ spec noProducer() := !F() && P() && !implements(after(WTR, r.payload), "io.Reader") && (!after(WTR, in(mediaType, producers)) || after(WTR, producers[mediaType]) == nil)
+//@ ensures [C11:autherr] calls(AR) == 1 && ret(AR,0,0) != nil ==> result1 != nil
 //@ ensures [C11:headers] result1 == nil ==> result0.Header == r.header
 //@ ensures [C10:parse] result1 == nil ==> calls(UP) == 2 && arg(UP,0,0) == basePath && arg(UP,1,0) == old(r.pathPattern) && ret(UP,0,1) == nil && ret(UP,1,1) == nil
 //@ ensures [C10:join] result1 == nil ==> calls(PJ) == 1 && argv(PJ,0,0,0) == before(PJ, ret(UP,0,0).Path) && argv(PJ,0,0,1) == before(PJ, ret(UP,1,0).Path)
@@ -420,6 +441,8 @@ package client
 //@ loop 2 invariant forall i int :: 0 <= i && i < calls(RA) ==> arg(RA,i,0) == (i == 0 ? ret(PJ,0,0) : ret(RA,i-1,0)) && arg(RA,i,1) == "{" + mapkey(i) + "}" && arg(RA,i,2) == ret(PE,i,0) && arg(PE,i,0) == mapat(r.pathParams, mapkey(i))
 //@ ensures [C12:abort] result1 != nil && calls(GO) == 1 ==> calls(AB) == 1 && arg(AB,0,0) == ret(PIPE,0,0) && arg(AB,0,1) == result1 && result1 == ret(AB,0,0)
 //@ ensures [C12:noabort] result1 == nil ==> calls(AB) == 0 && result0 != nil
+//@ ensures [C10:request] result1 == nil ==> result0 == ret(NRQ,0,0) && result0.URL != nil && result0.URL.RawQuery == ret(ENC,calls(ENC)-1,0) && arg(ENC,calls(ENC)-1,0) == r.query
+//@ ensures [C10:failed] result1 != nil ==> result0 == nil
 
 //@ func abortUpload
 //@ watch CE = call (*io.PipeReader).CloseWithError
